@@ -148,7 +148,9 @@ def message_pieces(x):
     ii.replace_exact('V-TRAIT', 'Self::IntoIter', 'NetworkDataIterator<StreamElement<T>>', detail='associated type IntoIter substituted')
     ii.name_result('r')
     ii.add_spec("        ensures (r matches NetworkDataIterator::Batch(i) && i.remaining() == msg_data(self)), // #obl:message.into_iter_yields_the_batch_in_order")
-    pieces += ["impl<T> NetworkMessage<T> {", nb, sd, ii, "}"]
+    ni = x.method(FN, 'NetworkMessage', 'num_items'); ni.name_result('r')
+    ni.add_spec("        ensures r == msg_data(*self).len(), // #obl:message.num_items")
+    pieces += ["impl<T> NetworkMessage<T> {", nb, sd, ni, ii, "}"]
     nx = x.method(FN, 'NetworkDataIterator', 'next', trait='Iterator')
     nx.replace_exact('V-TRAIT', 'Self::Item', 'T', detail='associated type Item substituted')
     nx.name_result('r')
